@@ -564,7 +564,7 @@ impl<'a, T> ContextBase<'a, T> {
 
         // Preserve omitted variables as `None`; only explicit variable defaults become
         // values.
-        Ok(self
+        let value = self
             .query_env
             .variables
             .get(&def.node.name.node)
@@ -574,7 +574,21 @@ impl<'a, T> ContextBase<'a, T> {
                     .default_value
                     .as_ref()
                     .map(|value| value.node.clone())
-            }))
+            });
+
+        // A variable of a non-null type must have a non-null runtime value (GraphQL
+        // October 2021, 6.1.2 CoerceVariableValues); never hand `null` or "omitted" on.
+        if !def.node.var_type.node.nullable && matches!(value, None | Some(Value::Null)) {
+            return Err(ServerError::new(
+                format!(
+                    "Variable \"${}\" of required type \"{}\" was not provided.",
+                    name, def.node.var_type.node
+                ),
+                Some(pos),
+            ));
+        }
+
+        Ok(value)
     }
 
     fn resolve_input_value_inner(
